@@ -15,6 +15,8 @@ Obl(f, n, m, k, i, c) ==
       q2 == Q2Of(ZMTheory(t), i, c)
   IN [fns |-> f, nfff |-> n, m |-> MassOf(m), k |-> KOf(k), i |-> i, cls |-> c, thr |-> CardThr(t, i),
       valid |-> Valid(ZMTheory(t)) /\ ClassValid(ZMTheory(t), i, c),
+      \* matching scales that are not in ascending order: no flavour number can be read off, the card is refused
+      unordered |-> RewriteFNS(ZMTheory(t)).ok /\ ~Monotone(Thresholds(ZMTheory(t))),
       nf |-> NfActive(t, q2), beta0 |-> Beta0(NfActive(t, q2))]
 ASSUME ndJsonSerialize(IOEnv.OUT, SetToSeq({Obl(f, n, m, k, i, c) :
           f \in FNSS, n \in NFFFS, m \in MASSES, k \in KS, i \in 1..3, c \in Classes}))
